@@ -49,6 +49,8 @@ pub struct Sh {
     pub faults_on: Cell<bool>,
     /// child index at which the last injected register fault struck
     pub fail_at: Cell<usize>,
+    /// the event being handed to the callback is a synthetic one (marked by before_sleep)
+    pub last_synth: Cell<bool>,
     /// the last injected unregister fault struck after every child had been unregistered
     pub late_fault: Cell<bool>,
     /// composite: the transient child answers Remove the next time it fires
@@ -211,6 +213,7 @@ impl<const L: bool> EventSource for Scr<L> {
         self.note("pe");
         self.sh.in_pe.set(true);
         let mut hit: Option<usize> = None;
+        let mut synthetic = false;
         for (k, g) in self.subs.iter_mut().enumerate() {
             let mut ran = false;
             let _ = g.process_events(readiness, token, |rd, fd| {
@@ -218,6 +221,8 @@ impl<const L: bool> EventSource for Scr<L> {
                 // synthetic events (marked with the error bit by before_sleep) do not touch the fd
                 if !rd.error {
                     epoll::eventfd_read(fd.0.as_raw_fd());
+                } else {
+                    synthetic = true;
                 }
                 Ok(PostAction::Continue)
             });
@@ -225,6 +230,7 @@ impl<const L: bool> EventSource for Scr<L> {
                 hit = Some(k);
             }
         }
+        self.sh.last_synth.set(synthetic);
         let r = match hit {
             Some(k) => match callback(k, &mut ()) {
                 Ret::Continue => Ok(PostAction::Continue),
@@ -420,6 +426,10 @@ pub struct RA {
     pub op_fail0: u32,
     /// an enable() of this disabled source failed and nothing has succeeded on it since: it is still disabled
     pub enable_failed: bool,
+    /// the source was disabled during a dispatch while its synthetic event of that batch had not
+    /// been served: the event is dropped if it comes while the source is still disabled, delivered
+    /// if the source has been enabled again by then
+    pub synth_maybe: Option<u8>,
     /// inserted at the second attempt (the first one was rejected by an injected fault): one more
     /// register call, and the first attempt's callback has been dropped
     pub retried: bool,
@@ -559,6 +569,7 @@ impl RCtx {
             op_fail: 0,
             op_fail0: 0,
             enable_failed: false,
+            synth_maybe: None,
             retried: false,
             clean_unreg: false,
             dead0: false,
@@ -886,7 +897,25 @@ impl RCtx {
         let a = &mut self.m[id];
         let mut legit = false;
         // synthetic events are dispatched before the polled ones; one cause per callback
-        if a.synth_owed == Some(sub as u8) {
+        let is_scr = matches!(a.spec, Spec::Scr { .. });
+        let synthetic = sh.last_synth.get();
+        if is_scr && synthetic {
+            // the scripted source tells which kind of event it was handed: exact attribution
+            if a.synth_owed == Some(sub as u8) {
+                a.synth_owed = None;
+                a.synth_seen = true;
+                legit = true;
+            } else if a.synth_maybe == Some(sub as u8) {
+                a.synth_maybe = None;
+                a.synth_seen = true;
+                legit = true;
+            }
+        } else if is_scr {
+            if sub < a.pend.len() && a.pend[sub] {
+                a.pend[sub] = false;
+                legit = true;
+            }
+        } else if a.synth_owed == Some(sub as u8) {
             a.synth_owed = None;
             a.synth_seen = true;
             legit = true;
@@ -1147,7 +1176,9 @@ impl RCtx {
                             // a disabled source and is dropped (disabled sources get nothing): the
                             // next callback of this source, if it is enabled again in time, is for
                             // its real event
-                            a.synth_owed = None;
+                            if let Some(k) = a.synth_owed.take() {
+                                a.synth_maybe = Some(k);
+                            }
                         }
                     }
                     ROp::Enable(_) => {
@@ -1256,6 +1287,7 @@ impl RCtx {
             a.fail0 = sh.reg_fail.get();
             a.op_fail0 = a.op_fail;
             a.dead0 = !a.alive || a.enable_failed || (a.clean_unreg && !a.enabled);
+            a.synth_maybe = None;
             a.bhe0 = sh.bhe.get();
             a.pe0 = sh.pe.get();
             a.synth_seen = false;
